@@ -423,6 +423,16 @@ func genHistory(c *core.Chooser, prop string, tid int, maxOps int) []hop {
 			o.pd, o.msg = pd, spec.Gen(c, pd, opt)
 			if o.kind == 0 {
 				o.frame, _ = spec.Build(o.msg)
+				if hl := pd.Proto.HeaderLen(); len(o.frame) > hl+1 && c.Prob(1, 10) {
+					// a frame cut short somewhere in its body whose length prefix says so too (a peer that omits trailing
+					// fields): whatever the decoder makes of it, the frames behind it in the buffer are not its to touch
+					n := hl + c.Intn(len(o.frame)-hl)
+					if c.Bool() {
+						n = len(o.frame) - 1 - c.Intn(min(24, len(o.frame)-hl-1))
+					}
+					o.frame = append([]byte(nil), o.frame[:n]...)
+					o.frame[0], o.frame[1], o.frame[2], o.frame[3] = byte(n>>24), byte(n>>16), byte(n>>8), byte(n)
+				}
 			}
 		case 3:
 			o.smpp = c.Bool()
@@ -535,17 +545,18 @@ func twinSplits(c *core.Chooser, hists [][]hop) {
 var nil2run = core.NewRun(core.NewSeedChooser(1), core.Config{}, nil)
 
 type taskState struct {
-	id      int
-	ops     []hop
-	ref     []hres // sequential reference results
-	res     []hres
-	conn    *simnet.SimConn
-	proto   string
-	link    *byteLink
-	cd      codec.Codec
-	done    bool
-	kept    map[string]protocol.PDU          // values the task decodes into again and again
-	builder *protocol.BatchDataCodingEncoder // the task's own builder value
+	id       int
+	ops      []hop
+	ref      []hres // sequential reference results
+	res      []hres
+	conn     *simnet.SimConn
+	proto    string
+	link     *byteLink
+	cd       codec.Codec
+	done     bool
+	kept     map[string]protocol.PDU          // values the task decodes into again and again
+	builder  *protocol.BatchDataCodingEncoder // the task's own builder value
+	consumed int                              // octets of the task's stream handed out as frames so far
 	// blocked: the task reads its connection through the blocking extractor, whose frames belong to the caller
 	blocked bool
 }
@@ -581,6 +592,16 @@ func execOp(r *core.Run, t *taskState, o hop) (live any, label string, panicked 
 				live = "framing error: " + err.Error()
 				return
 			}
+			t.consumed += len(view)
+			defer func() {
+				// the octets still unread in the connection's buffer belong to the connection: they must be what the
+				// peer sent, whatever the decoder did with the frame in front of them
+				un := t.conn.Unread()
+				rest := t.link.stream[min(t.consumed, len(t.link.stream)):]
+				if len(un) <= len(rest) && !bytes.Equal(un, rest[:len(un)]) && r.Cfg.Property != "" {
+					r.Fail(r.Cfg.Property, "input-buffer-written", label, "behind-the-frame", "task %d: after decoding a %d-octet frame the unread octets behind it in the connection's buffer differ from what was sent", t.id, len(view))
+				}
+			}()
 			if t.blocked && o.ref == 1 {
 				// the frame a blocking extractor returns is the caller's: it is kept as it is, unscribbled
 				live = withBirth{live: view, birth: snapshot(view)}
